@@ -403,7 +403,24 @@ def count_recalcs():
     CT_GroupShape.recalculate_extents = counted
 
 
+MC = "{http://schemas.openxmlformats.org/markup-compatibility/2006}"
+
+
 def members(g_el):
+    """The member shapes of a group: its shape children, and the shapes PowerPoint wraps in mc:AlternateContent (a newer kind
+    of object in the mc:Choice, its stand-in in the mc:Fallback: one member, whose box is that of the Choice's shape)."""
+    out = []
+    for c in g_el:
+        if c.tag in SHAPE_TAGS:
+            out.append(c)
+        elif c.tag == MC + "AlternateContent":
+            ch = c.find(MC + "Choice")
+            out += [x for x in (ch if ch is not None else ()) if x.tag in SHAPE_TAGS]
+    return out
+
+
+def listed(g_el):
+    """The members python-pptx's shape collection lists (direct shape children): what an index into `group.shapes` counts."""
     return [c for c in g_el if c.tag in SHAPE_TAGS]
 
 
@@ -509,7 +526,9 @@ class GroupBuild:
             ch = None if choff is None or chext is None else (int(choff.get("x")), int(choff.get("y")), int(chext.get("cx")), int(chext.get("cy")))
             pr = self.proxy[g]
             api = (int(pr.left), int(pr.top), int(pr.width), int(pr.height))
-            api_want = bbox([(int(m.left), int(m.top), int(m.width), int(m.height)) for m in pr.shapes if holds_shape(m._element) and None not in (m.left, m.top, m.width, m.height)])
+            wrapped = any(c.tag == MC + "AlternateContent" for c in g)
+            # (python-pptx's shape collection does not list a wrapped member: there the XML side alone decides)
+            api_want = api if wrapped else bbox([(int(m.left), int(m.top), int(m.width), int(m.height)) for m in pr.shapes if holds_shape(m._element) and None not in (m.left, m.top, m.width, m.height)])
             key = "group-extents-stale:freeform" if kind == "freeform" else "group-extents:%s%s" % (kind, ":ancestor" if level else "")
             where = "group %d level(s) above the %s just added" % (level + (el.tag != P + "grpSp"), kind)
             if got != want or api != api_want:
@@ -542,18 +561,18 @@ def gen_op(b, r):
         into = r.choice((-1, gi, gi))
         d = b.depth(into)
         if d < 4:
-            els = members(b.slide.shapes._spTree if into < 0 else b.groups[into]._element)
+            els = listed(b.slide.shapes._spTree if into < 0 else b.groups[into]._element)
             ok = [i for i, m in enumerate(els) if d + 1 + height(m) <= 4]
             take = sorted(r.sample(ok, min(len(ok), r.choice((0, 1, 2, 3)))))
             return {"op": "group", "into": into, "take": take}
     elif roll < 0.42:
         # the members of the new group are taken OUT OF another group: that group (and its ancestors) lost members and must
         # follow as well ("always equal the bounding box of its member shapes")
-        srcs = [k for k, g in enumerate(b.groups) if sum(1 for m in members(g._element) if m.tag != P + "grpSp") >= 2]
+        srcs = [k for k, g in enumerate(b.groups) if sum(1 for m in listed(g._element) if m.tag != P + "grpSp") >= 2]
         if srcs:
             y = r.choice(srcs)
             into = r.choice([-1] + [k for k in range(len(b.groups)) if k != y and b.depth(k) < 4])
-            leaves = [i for i, m in enumerate(members(b.groups[y]._element)) if m.tag != P + "grpSp"]
+            leaves = [i for i, m in enumerate(listed(b.groups[y]._element)) if m.tag != P + "grpSp"]
             take = sorted(r.sample(leaves, r.randint(1, len(leaves) - 1)))
             return {"op": "group", "into": into, "take_from": y, "take": take}
     kind = r.choice(("autoshape", "textbox", "connector") if gi < 0 else ("autoshape", "autoshape", "textbox", "textbox", "picture", "picture", "connector", "connector", "freeform", "freeform", "chart", "ole"))
@@ -576,6 +595,26 @@ class _Stop(Exception):
 
 
 def group_step(b, op, step, tag):
+    if step % 9 == 7 and b.groups and not (op["op"] == "group" and op["take"]):  # (that op's indices were drawn on the tree as it is)
+        # pre-state: a member of some group wrapped the way PowerPoint wraps objects an older reader does not know
+        # (<mc:AlternateContent><mc:Choice Requires="p14">the shape</mc:Choice><mc:Fallback>a stand-in</mc:Fallback>): it is
+        # still a member of the group, with the same box
+        g = b.groups[step % len(b.groups)]._element
+        ms = [m for m in g if m.tag == P + "sp" and xfrm_of(m) is not None]
+        if ms:
+            import copy
+
+            from lxml import etree
+
+            m = ms[step % len(ms)]
+            ac = etree.SubElement(g, MC + "AlternateContent", nsmap={"mc": MC[1:-1], "p14": "http://schemas.microsoft.com/office/powerpoint/2010/main"})
+            m.addprevious(ac)
+            choice = etree.SubElement(ac, MC + "Choice")
+            choice.set("Requires", "p14")
+            fb = etree.SubElement(ac, MC + "Fallback")
+            fb.append(copy.deepcopy(m))
+            choice.append(m)
+            CALLS["members_wrapped_in_mc_AlternateContent"] += 1
     if step % 9 == 4 and b.groups:
         # pre-state for the next addition: a member of some group loses its a:xfrm (schema-valid: the element is optional; a
         # shape that inherits its place, a nested group written as <p:grpSpPr/>) - additions must still work and the box is
@@ -585,6 +624,7 @@ def group_step(b, op, step, tag):
         if len(ms) >= 2:
             xf = xfrm_of(ms[step % len(ms)])
             xf.getparent().remove(xf)
+            b.dirty.add(ms[step % len(ms)])  # (a nested group written as <p:grpSpPr/> has no box until a shape is added below it)
             CALLS["members_stripped_of_their_xfrm"] += 1
             # this group and the groups around it no longer match their members THROUGH THIS HARNESS'S DOING; the next addition
             # of a shape below them recalculates them - adding an empty sub-group adds nothing to bound and owes no recalculation
